@@ -294,6 +294,32 @@ struct Expect {
     build: usize,
 }
 
+fn xml_trim(s: &str, start: bool, end: bool) -> &str {
+    let ws = |c: char| matches!(c, ' ' | '\t' | '\r' | '\n');
+    let mut t = s;
+    if start {
+        t = t.trim_start_matches(ws);
+    }
+    if end {
+        t = t.trim_end_matches(ws);
+    }
+    t
+}
+
+fn trimmed_text(s: &str, start: bool, end: bool, owned: bool) -> BytesText<'_> {
+    let mut t = BytesText::new(s);
+    if owned {
+        t = t.into_owned();
+    }
+    if start {
+        t.inplace_trim_start();
+    }
+    if end {
+        t.inplace_trim_end();
+    }
+    t
+}
+
 fn expected(builds: &[Build]) -> Vec<Expect> {
     let mut out = vec![];
     let mut decls: Vec<(usize, (String, Option<String>, Option<String>))> = vec![];
@@ -308,6 +334,10 @@ fn expected(builds: &[Build]) -> Vec<Expect> {
             }
             Build::End(n) => push(Event::End(BytesEnd::new(n.clone())), None, None),
             Build::Text(s) => push(Event::Text(BytesText::new(s).into_owned()), Some(s.clone()), None),
+            Build::TextTrim { s, start, end, .. } => {
+                let t = xml_trim(s, *start, *end);
+                push(Event::Text(BytesText::new(t).into_owned()), Some(t.to_string()), None)
+            }
             Build::CDataEscaped(s) => {
                 let mut first = true;
                 for c in BytesCData::escaped(s) {
@@ -377,6 +407,7 @@ fn emit_sync(builds: &[Build], w: &mut Writer<Vec<u8>>) -> io::Result<()> {
             }
             Build::End(n) => w.write_event(Event::End(BytesEnd::new(n.as_str())))?,
             Build::Text(s) => w.write_event(Event::Text(BytesText::new(s)))?,
+            Build::TextTrim { s, start, end, owned } => w.write_event(Event::Text(trimmed_text(s, *start, *end, *owned)))?,
             Build::CDataEscaped(s) => {
                 for c in BytesCData::escaped(s) {
                     w.write_event(Event::CData(c))?;
@@ -436,6 +467,7 @@ async fn emit_async(builds: &[Build], w: &mut Writer<PipeWriter>) -> quick_xml::
             }
             Build::End(n) => w.write_event_async(Event::End(BytesEnd::new(n.as_str()))).await?,
             Build::Text(s) => w.write_event_async(Event::Text(BytesText::new(s))).await?,
+            Build::TextTrim { s, start, end, owned } => w.write_event_async(Event::Text(trimmed_text(s, *start, *end, *owned))).await?,
             Build::CDataEscaped(s) => {
                 for c in BytesCData::escaped(s) {
                     w.write_event_async(Event::CData(c)).await?;
@@ -498,7 +530,7 @@ async fn emit_async(builds: &[Build], w: &mut Writer<PipeWriter>) -> quick_xml::
 // generators
 
 const P_NAMES: &[&str] = &["a", "ab", "a:b", "x-y", "_z", "\u{e9}l", "n1", "A.b"];
-const P_KEYS: &[&str] = &["k", "id", "p:k", "xml:lang", "k2", "\u{fc}"];
+const P_KEYS: &[&str] = &["k", "id", "p:k", "xml:lang", "k2", "\u{fc}", "ID", "K", "Id", "\u{dc}"];
 const P_STRS: &[&str] = &[
     "", "x", "a b", "<", ">", "&", "\"", "'", "]]>", "--", "?>", "a]]>b", "]]", "\u{e9}", "&amp;", " lead", "trail ", "\n",
     "<a>", "</a>", "-", "?", "=", "\u{fc}]]>]]>", "\u{65e5}\u{672c}", "]]>]]>", "]", "]>", "a\"b'c", "&#x41;", "<!--", "-->",
@@ -597,7 +629,17 @@ fn gen_build(rng: &mut Rng, open: &mut Vec<String>) -> Build {
             let n = if rng.chance(4, 5) { open.pop() } else { None };
             Build::End(n.unwrap_or_else(|| rng.pick(P_NAMES).to_string()))
         }
-        6 | 7 => Build::Text(pstr(rng)),
+        6 => Build::Text(pstr(rng)),
+        7 => {
+            if rng.chance(1, 2) {
+                Build::Text(pstr(rng))
+            } else {
+                // blanks of all four kinds around a pool string, trimmed in place before writing
+                let pad = |rng: &mut Rng| (0..rng.below(4)).map(|_| *rng.pick(&[" ", "\t", "\n", "\r", "  "])).collect::<String>();
+                let s = format!("{}{}{}", pad(rng), pstr(rng), pad(rng));
+                Build::TextTrim { s, start: rng.bool(), end: rng.bool(), owned: rng.bool() }
+            }
+        }
         8 | 9 => Build::CDataEscaped(pstr(rng)),
         10 => Build::CData(pstr_where(rng, |s| !s.contains("]]>"))),
         11 => Build::Comment(pstr_where(rng, |s| !s.contains("--") && !s.ends_with('-'))),
@@ -1017,6 +1059,20 @@ fn check_readback(exp: &[Expect], got: &[Result<Event<'static>, String>], bytes:
             if Some(&&have) != want_attrs.get(k) {
                 out.push(Violation::new("C09", "payload-differs", format!("attributes pushed {:?}, read back {:?}", want_attrs.get(k), have)));
                 return;
+            }
+            // pairwise different names (byte for byte): the default, checking iterator must
+            // hand out the same list; names that differ in case only are different names
+            let distinct = (0..have.len()).all(|i| (0..i).all(|j| have[i].0 != have[j].0));
+            if distinct {
+                let checked: Vec<Result<String, String>> = s
+                    .attributes()
+                    .map(|a| a.map(|a| String::from_utf8_lossy(a.key.as_ref()).into_owned()).map_err(|e| format!("{:?}", e)))
+                    .collect();
+                let want: Vec<Result<String, String>> = have.iter().map(|(k, _)| Ok(k.clone())).collect();
+                if checked != want {
+                    out.push(Violation::new("C09", "payload-differs", format!("attributes pushed {:?} (all names different); the checking iterator gives {:?}", have, checked)));
+                    return;
+                }
             }
             k += 1;
         }
